@@ -702,7 +702,11 @@ func main() {
 		out      = flag.String("out", "cases.v", "cases file")
 		stats    = flag.String("stats", "stats.json", "stats file")
 	)
-	// subcommand (ignored, kept for the CLI contract)
+	// subcommand: `group` = group.go aggregation harness (group.go in this directory); anything else = pool harness
+	if len(os.Args) > 1 && os.Args[1] == "group" {
+		groupMain(os.Args[2:])
+		return
+	}
 	args := flagArgs()
 	flag.CommandLine.Parse(args)
 	installHooks()
